@@ -444,8 +444,20 @@ def oracle_c19(case, lo):
                 one = 3 * 32 + 8 + (1 << (nv // 2)) * 32 + 3 * 32
                 if size != 8 + len(sel) * one:
                     fails.append("hyrax proof of %d bytes for %d polynomials in %d variables: not 2^(n/2)-size" % (size, len(sel), nv))
-    # code-based schemes: the chosen matrix is within 4x of the best power-of-two row count (same size formula, uncapped shapes)
+    # code-based schemes: the field elements shipped at the chosen matrix are within 4x of the best power-of-two row count
+    # (openings capped at the codeword length; t from the library's own formula for the scheme's distance)
     if sch in ("ligero_uni", "ligero_ml", "brakedown_ml"):
+        import math
+        lig = [int(x) for x in case.fields.get("lig", [])]
+        sec = lig[0] if lig and sch != "brakedown_ml" else 128
+        rho = lig[1] if lig and sch != "brakedown_ml" else (2 if sch == "ligero_ml" else 4)
+        dist = (61000.0 / 1521000.0) if sch == "brakedown_ml" else (rho - 1.0) / rho
+        expand = 1.72 if sch == "brakedown_ml" else rho      # codeword length / message length (Brakedown: about 1.72)
+
+        def t_of(cw):
+            rhs = math.log2(2.0 ** (-sec) - cw / 2.0 ** 255)
+            t = int(math.ceil((rhs - 1.0) / math.log2(1.0 - 0.5 * dist)))
+            return min(t, cw)
         for name, v in lo.items():
             if not name.startswith("shape.proof."):
                 continue
@@ -456,12 +468,22 @@ def oracle_c19(case, lo):
                 if not same or ncol2 != tt:
                     fails.append("%s proof: ragged columns/paths (%d paths, %d columns)" % (sch, tt, ncol2))
                 N = nrows * ncols
-                shipped = ncols + tt * nrows + (wfl if wfp else 0)          # field elements in the proof
-                if tt < 4 * ncols and N >= 64:
-                    best = min(max(1, -(-N // r)) * (2 if wfp else 1) + tt * r for r in [1 << e for e in range(0, 21)])
-                    if shipped > 4 * best:
-                        fails.append("%s proof ships %d field elements for a %d-coefficient polynomial (matrix %d x %d, %d openings); "
-                                     "the best power-of-two row count needs %d: beyond the 4x allowance" % (sch, shipped, N, nrows, ncols, tt, best))
+                rows_w = 2 if wfp else 1
+                shipped = ncols * rows_w + tt * nrows          # field elements in the proof
+                best = None
+                for e in range(0, 25):
+                    r = 1 << e
+                    if r > 2 * N:
+                        break
+                    m = max(1, -(-N // r))
+                    cw = int(math.ceil(m * expand))
+                    if sch != "brakedown_ml":
+                        cw = 1 << max(0, (m * rho - 1).bit_length())
+                    cand = m * rows_w + t_of(cw) * r
+                    best = cand if best is None else min(best, cand)
+                if best is not None and shipped > 4 * best:
+                    fails.append("%s proof ships %d field elements for a %d-coefficient polynomial (matrix %d x %d, %d openings); "
+                                 "the best power-of-two row count needs %d: beyond the 4x allowance" % (sch, shipped, N, nrows, ncols, tt, best))
     return fails
 
 
@@ -585,7 +607,7 @@ PROPS = {
     "C05": {
         "props_file": "props/C05.v",
         "flows": [(gen_kzg.gen, "c05", 60, 600), (gen_pc.gen, "c05", 96, 960)],
-        "oracles": [oracle_kzg_batches, lambda c, lo: pc_mutations(c, lo, ("value", "cancel", "proofs"))],
+        "oracles": [oracle_kzg_batches, pc_honest, lambda c, lo: pc_mutations(c, lo, ("value", "cancel", "proofs"))],
         "accept_diffs": ("mut.", "batch."),
         "title": "Batch verification",
     },
